@@ -161,6 +161,84 @@ Section Guards.
 
 End Guards.
 
+(* ---- G1': the specification over ALL lines (no column-1 / parses-by-columns guard) ----
+
+   read_pdb strips every line before it looks at it, so the record a line holds is
+   decided by columns 1-6 of the STRIPPED line.  A coordinate line is read by fixed
+   columns from itself when it is long enough for the column parser (more than 26
+   characters for ATOM, more than 16 for HETATM), otherwise from the fixed-column
+   line that pdb.read_atom documents (five consecutive numbers found from the
+   right, the word in front of them is the residue number, columns 1-22 kept);
+   when there are no five numbers the read fails (ValueError). *)
+Section Spec2.
+  Variable fok : string -> bool.
+
+  Definition coord_het (s : string) : option bool :=
+    if rec_name s =? "ATOM" then Some false
+    else if rec_name s =? "HETATM" then Some true else None.
+
+  Definition eff_line (het : bool) (s : string) : option string :=
+    if ((if het then 16 else 26) <? String.length s)%nat then Some s else fallback_line fok s.
+
+  (* the fixed-column text the coordinate record of [raw] is read from *)
+  Definition spec_line (raw : string) : option string :=
+    let s := strip raw in
+    match coord_het s with Some het => eff_line het s | None => None end.
+
+  Definition is_coord2 (raw : string) : bool :=
+    match coord_het (strip raw) with Some _ => true | None => false end.
+
+  Definition is_model2 (raw : string) : bool := rec_name (strip raw) =? "MODEL".
+
+  Fixpoint first_model2 (seen : bool) (lines : list string) : list string :=
+    match lines with
+    | [] => []
+    | l :: r =>
+        if is_model2 l then (if seen then [] else l :: first_model2 true r)
+        else l :: first_model2 seen r
+    end.
+
+  Definition line_ident2 (raw : string) : ident :=
+    match spec_line raw with Some l => line_ident l | None => ("", None, "", "") end.
+
+  Fixpoint first_listed2 (seen : list ident) (ls : list string) : list string :=
+    match ls with
+    | [] => []
+    | l :: r =>
+        if existsb (ident_eqb (line_ident2 l)) seen then first_listed2 seen r
+        else l :: first_listed2 (line_ident2 l :: seen) r
+    end.
+
+  Definition cols_read2 (lines : list string) : list string :=
+    first_listed2 [] (filter is_coord2 (first_model2 false lines)).
+
+  (* the purely syntactic guard G1' (per line) *)
+  Definition chunk_ok (raw : string) : bool := negb (is_empty raw).   (* a readline() chunk *)
+
+  (* since the repairs of C07-F7 (a coordinate line without coordinates raises) and
+     C07-F8 (MODEL records never fail) nothing else is needed per line *)
+  Definition g1' (lines : list string) : bool := forallb chunk_ok lines.
+
+  (* the line makes read_pdb raise ValueError *)
+  Definition raises (raw : string) : bool :=
+    let s := strip raw in
+    negb (is_empty s) && match line_outcome fok s with ORaise => true | _ => false end.
+
+  (* a water coordinate line: residue name (columns 18-20 of the text the record is
+     read from) is a water name *)
+  Definition is_water_line2 (raw : string) : bool :=
+    is_coord2 raw &&
+    match spec_line raw with
+    | Some l => mem_str (strip (slice 17 20 l)) water_names
+    | None => false
+    end.
+
+  Definition guard2 (tab : deftab) (lines : list string) : bool :=
+    g1' lines &&
+    (let recs := flat_map (line_recs fok) lines in
+     inert recs && forallb (alias_ok tab) (lsegs [] 0 [] recs)).
+End Spec2.
+
 (* serial numbers of the atoms of a result, in Biomolecule order *)
 Definition serials_of (r : result) : list Z :=
   match r with Done rs => map a_serial (all_atoms rs) | Raised _ => [] end.
